@@ -46,6 +46,25 @@ PROPS = {
         ],
         'partial': 'theorem is per write_to_file call from any consistent state (an induction away from sequences); the transitive closure of references is C01',
     },
+    'C12': {
+        'abi_module': 'AbiC12',
+        'stages': quick_thorough(
+            [{'name': 'layouts', 'sub': 'c12', 'n': 1500}],
+            [{'name': 'layouts', 'sub': 'c12', 'n': 60000}]),
+        'assumptions': [
+            "hypotheses of C12_refines: kernel extent inside the mapping extent (C13 RunOf) and mappings sharing an address agree on executability; the generator produces such layouts",
+            "64-bit little-endian words (x86-64)",
+        ],
+        'partial': 'sanitised live dumps are exercised by the live stage',
+    },
+    'C20': {
+        'abi_module': 'AbiC20',
+        'stages': quick_thorough(
+            [{'name': 'scan', 'sub': 'c20', 'n': 1000}],
+            [{'name': 'scan', 'sub': 'c20', 'n': 40000}]),
+        'assumptions': ["64-bit little-endian words (x86-64)"],
+        'partial': 'the pure stage drives the public scan; the inclusion decision with the instruction pointer, the soft error and the records of excluded stacks are exercised by the live stage',
+    },
     'C13': {
         'abi_module': 'AbiC13',
         'stages': quick_thorough(
